@@ -20,10 +20,12 @@ import thresha_oracle as orc  # noqa: E402
 import common  # noqa: E402
 
 LEVEL = 'proof'
-LEAN_MODULES = ['MpycV.Props.C15']
-LEAN_NAMESPACES = ['MpycV.C15']
+LEAN_MODULES = ['MpycV.Props.C15', 'MpycV.PropsGen.C15Src']   # + source tie of thresha.py (see props/c12.py)
+LEAN_NAMESPACES = ['MpycV.C15', 'MpycV.C15Src']
 REQUIRED_THEOREMS = ['fS_spec', 'prss_consistent', 'prss_zero_consistent', 'prss_consistent_modP',
-                     'prss_zero_consistent_modP', 'outside_count', 'prss_length']
+                     'prss_zero_consistent_modP', 'outside_count', 'prss_length',
+                     # source tie (PropsGen/C15Src.lean, generated from the current thresha.py)
+                     'f_S_i_src_eq', 'pseudorandom_share_src_eq', 'pseudorandom_share_zero_src_eq']
 RULE = ('case = (field, m, t with 2t < m, key per subset of size m-t (random 16 bytes), PRF bound (field order, 2, 2^k), '
         'uci bytes, batch size n in {0,1,5}, function share/zero, variant list/np, order of the prfs dict); every party '
         'is run; fields GF(7), GF(11), GF(2^3), GF(3^2), GF(2^4) (Lean via tables), 64/128-bit primes (Lean via modP), '
@@ -165,6 +167,12 @@ def configs(ctx):
     return mt
 
 
+def generate(ctx):
+    """source translator tie shared with C12: regenerate lean/MpycV/Generated/ThreshaSrc.lean from the current source"""
+    from props import c12
+    c12.generate(ctx)
+
+
 def run(ctx):
     rng = ctx.rng
     flds = [Fld(7), Fld(11), Fld(2, 3), Fld(3, 2), Fld(2, 4), Fld(G.P64), Fld(G.P128), Fld(2, 8), Fld(3, 5)]
@@ -260,7 +268,37 @@ def runtime_threshold_change(ctx):
             return
 
 
+def fsi_sweep(ctx):
+    """oracle-only: _f_S_i against the product formula for all (m, t, S, i), m <= 6, GF(11)"""
+    F = Fld(11)
+    for m in range(1, 7):
+        for t in range(0, m):
+            if 2 * t >= m:
+                continue
+            for S in itertools.combinations(range(m), m - t):
+                for i in range(m):
+                    st, v = exc_name(thresha._f_S_i, F.field, m, i, S)
+                    v = F.canon(v) if st == 'ok' else v
+                    want = f_S_at(F, m, S, F.of.from_int(i + 1))
+                    if v != want:
+                        ctx.violation('_f_S_i is not the polynomial that is 1 at 0 and 0 outside S',
+                                      {'kind': 'fsi', 'field': F.desc(), 'm': m, 'i': i, 'S': list(S),
+                                       'expected': want, 'observed': v})
+                        return
+
+
 def search(ctx):
+    try:
+        from props import c12
+        changed = [f for f in c12.changed_functions() if f in ('f_S_i', 'pseudorandom_share', 'pseudorandom_share_zero',
+                                                               'recombine_one', 'recombination_vector')]
+        if changed:
+            ctx.note('source tie: translation differs from the mirror for ' + ', '.join(changed))
+    except Exception as exc:  # noqa: BLE001
+        ctx.note(f'source tie status unavailable: {exc}')
+    fsi_sweep(ctx)
+    if ctx.violations:
+        return
     rng = ctx.subrng('search')
     flds = [Fld(7), Fld(11), Fld(3, 2), Fld(G.P64), Fld(2, 8)]
     for _ in range(ctx.scale(300, 3000)):
